@@ -48,6 +48,133 @@ func extractParamStyles(repo string) (string, error) {
 	var dfls []dfl
 	var unrec []string
 	found := 0
+	// Header.Validate: `if smSupported := false || sm.Style == X && [!]sm.Explode || …; !smSupported {`
+	type hrow struct {
+		style   string
+		explode bool
+	}
+	var hrows []hrow
+	hdrDefaultStyle, hdrDefaultExplode, haveHdrStyle, haveHdrExplode := "", false, false, false
+	hfound := 0
+	for _, f := range pkg.Syntax {
+		fn := pkg.Fset.Position(f.Pos()).Filename
+		if !strings.HasSuffix(fn, "/header.go") {
+			continue
+		}
+		where := func(n ast.Node) string { return fmt.Sprintf("header.go:%d", pkg.Fset.Position(n.Pos()).Line) }
+		for _, d := range f.Decls {
+			fd, ok := d.(*ast.FuncDecl)
+			if !ok || fd.Recv == nil || fd.Body == nil || descTypeName(info.TypeOf(fd.Recv.List[0].Type)) != "Header" {
+				continue
+			}
+			switch fd.Name.Name {
+			case "Validate":
+				ast.Inspect(fd.Body, func(n ast.Node) bool {
+					as, ok := n.(*ast.AssignStmt)
+					if !ok || len(as.Lhs) != 1 || len(as.Rhs) != 1 {
+						return true
+					}
+					if id, ok := as.Lhs[0].(*ast.Ident); !ok || id.Name != "smSupported" {
+						return true
+					}
+					hfound++
+					var disj func(x ast.Expr)
+					one := func(x ast.Expr) {
+						var r hrow
+						okAll, haveStyle, haveExpl := true, false, false
+						var conj func(y ast.Expr)
+						conj = func(y ast.Expr) {
+							switch b := y.(type) {
+							case *ast.ParenExpr:
+								conj(b.X)
+							case *ast.BinaryExpr:
+								if b.Op == token.LAND {
+									conj(b.X)
+									conj(b.Y)
+									return
+								}
+								if b.Op == token.EQL {
+									if sel, ok := b.X.(*ast.SelectorExpr); ok && sel.Sel.Name == "Style" {
+										if v, ok := strConst(b.Y); ok {
+											r.style, haveStyle = v, true
+											return
+										}
+									}
+								}
+								okAll = false
+							case *ast.UnaryExpr:
+								if sel, ok := b.X.(*ast.SelectorExpr); ok && b.Op == token.NOT && sel.Sel.Name == "Explode" {
+									r.explode, haveExpl = false, true
+									return
+								}
+								okAll = false
+							case *ast.SelectorExpr:
+								if b.Sel.Name == "Explode" {
+									r.explode, haveExpl = true, true
+									return
+								}
+								okAll = false
+							default:
+								okAll = false
+							}
+						}
+						conj(x)
+						if okAll && haveStyle && haveExpl {
+							hrows = append(hrows, r)
+						} else {
+							unrec = append(unrec, where(x))
+						}
+					}
+					disj = func(x ast.Expr) {
+						switch b := x.(type) {
+						case *ast.ParenExpr:
+							disj(b.X)
+							return
+						case *ast.BinaryExpr:
+							if b.Op == token.LOR {
+								disj(b.X)
+								disj(b.Y)
+								return
+							}
+						case *ast.Ident:
+							if b.Name == "false" {
+								return
+							}
+						}
+						one(x)
+					}
+					disj(as.Rhs[0])
+					return true
+				})
+			case "SerializationMethod":
+				hfound++
+				ast.Inspect(fd.Body, func(m ast.Node) bool {
+					as, ok := m.(*ast.AssignStmt)
+					if !ok || len(as.Lhs) != 1 || len(as.Rhs) != 1 {
+						return true
+					}
+					id, ok := as.Lhs[0].(*ast.Ident)
+					if !ok {
+						return true
+					}
+					if id.Name == "style" && as.Tok == token.ASSIGN {
+						if v, ok := strConst(as.Rhs[0]); ok {
+							hdrDefaultStyle, haveHdrStyle = v, true
+						}
+					}
+					if id.Name == "explode" && as.Tok == token.DEFINE {
+						if b, ok := as.Rhs[0].(*ast.Ident); ok && (b.Name == "true" || b.Name == "false") {
+							hdrDefaultExplode, haveHdrExplode = b.Name == "true", true
+						}
+					}
+					return true
+				})
+			}
+		}
+	}
+	if hfound != 2 || !haveHdrStyle || !haveHdrExplode {
+		unrec = append(unrec, fmt.Sprintf("header.go: expected the smSupported assignment and SerializationMethod with defaults, found %d", hfound))
+	}
 	for _, f := range pkg.Syntax {
 		fn := pkg.Fset.Position(f.Pos()).Filename
 		if !strings.HasSuffix(fn, "/parameter.go") {
@@ -195,7 +322,7 @@ func extractParamStyles(repo string) (string, error) {
 	sort.SliceStable(dfls, func(i, j int) bool { return dfls[i].in < dfls[j].in })
 	var b strings.Builder
 	b.WriteString("-- GENERATED by go/cmd/extract (table ParamStyles) from the repository under test. Do not edit.\n")
-	fmt.Fprintf(&b, "-- rows: %d\n", len(rows)+len(dfls)+len(unrec))
+	fmt.Fprintf(&b, "-- rows: %d\n", len(rows)+len(dfls)+len(hrows)+1+len(unrec))
 	b.WriteString("namespace KinModel.Gen\n\n/-- (in, style, explode) accepted by Parameter.Validate -/\ndef paramStyles : List (String × String × Bool) := [\n")
 	for i, r := range rows {
 		sep := ","
@@ -212,7 +339,15 @@ func extractParamStyles(repo string) (string, error) {
 		}
 		fmt.Fprintf(&b, "  (%q, %q, %v)%s\n", r.in, r.style, r.explode, sep)
 	}
-	b.WriteString("]\n\ndef paramStylesUnrecognised : List String := [")
+	b.WriteString("]\n\n/-- (style, explode) accepted by Header.Validate -/\ndef headerStyles : List (String × Bool) := [")
+	for i, r := range hrows {
+		if i > 0 {
+			b.WriteString(", ")
+		}
+		fmt.Fprintf(&b, "(%q, %v)", r.style, r.explode)
+	}
+	fmt.Fprintf(&b, "]\n\n/-- Header.SerializationMethod defaults -/\ndef headerStyleDefault : String × Bool := (%q, %v)\n", hdrDefaultStyle, hdrDefaultExplode)
+	b.WriteString("\ndef paramStylesUnrecognised : List String := [")
 	for i, u := range unrec {
 		if i > 0 {
 			b.WriteString(", ")
